@@ -105,7 +105,9 @@ def rand_doc(r, maxlines=8) -> str:
 
 
 LEAVES_S = [["# h"], ["h", "==="], ["t", "---"], ["```", "code", "", "more", "```"], ["~~~ info", "x", "~~~"], ["    code"], ["***"],
-            ["<div>", "x", "</div>"], ["[r]: /u 'T'"], ["|a|b|", "|-|-|", "|1|2|"], ["<!-- c -->"], ["a", "b"], ["[r]"], ["```", "open"]]
+            ["<div>", "x", "</div>"], ["[r]: /u 'T'"], ["|a|b|", "|-|-|", "|1|2|"], ["<!-- c -->"], ["a", "b"], ["[r]"], ["```", "open"],
+            # reference definitions whose title runs over several lines, with a backslash before the line ending
+            ["[r]: /u \"a\\", "b\""], ["[r2]: /u 'x\\", "y\\", "z'"], ["[r3]:", "/u", "(t\\", "u)"], ["[r4]: /u \"one", "two\""]]
 
 
 def struct_lines(r, depth=2) -> list[str]:
@@ -197,6 +199,21 @@ def delim_sweep(maxlen: int, atoms=("~~", "~", "*", "[", "](u)", "a")):
 
 
 _SPEC_CACHE: list[str] | None = None
+
+
+def crossing_family():
+    """inline runs where a delimiter pair would have to cross a link boundary: something earlier in the run (a link, an
+    autolink, an image, nothing), an opener before / inside a link, a closer inside / after it, and inline constructs with
+    their own delimiter scope (autolink, code span, nested link, image) in between"""
+    pres = ["", "[b](u) ", "<http://p.q> ", "![i](s) ", "`k` ", "[b](u) <http://p.q> "]
+    inner = ["c", "<http://x.y>", "`k`", "[n](m)", "![i](s)", "\\*", "_e_"]
+    for op in ("*", "**", "_", "~~"):
+        for pre in pres:
+            for x in inner:
+                for y in inner:
+                    yield f"{op}a {pre}[{x} {y} d{op}](w)"          # opens before the link, closes inside its text
+                    yield f"{pre}[{op}a {x} {y}](w) d{op}"          # opens inside, closes after
+                    yield f"{op}a {pre}[{x}](w) {y} d{op}"          # control: proper nesting around a link
 
 
 def spec_inputs() -> list[str]:
